@@ -768,6 +768,9 @@ package rosmar
 //@   ensures [C02,C03:Update.writes-on-version-read] count("call:Collection.WriteCas") >= 1 ==> callarg("Collection.WriteCas", 3) == callret("Collection.getRaw", 1) && callarg("Collection.WriteCas", 1) == key && callarg("Collection.WriteCas", 0) == c && callarg("Collection.WriteCas", 5) == 0
 //@   ensures [C03:Update.only-conditional-writes] count("sql") == 0
 //@   ensures [C03:Update.stores-callback-result] count("call:Collection.WriteCas") >= 1 && !isnull(cbret(0)) ==> callarg("Collection.WriteCas", 4) == cbret(0)
+//@   ensures [C01,C03:Update.keeps-body-unless-told] count("call:Collection.WriteCas") >= 1 && isnull(cbret(0)) && !cbret(2) ==> callarg("Collection.WriteCas", 4) == callret("Collection.getRaw", 0)
+//@   ensures [C01,C05:Update.delete-writes-no-body] count("call:Collection.WriteCas") >= 1 && isnull(cbret(0)) && cbret(2) ==> isnull(rawof(callarg("Collection.WriteCas", 4)))
+//@   ensures [C01,C14:Update.expiry] count("call:Collection.WriteCas") >= 1 && cbret(1) != nil ==> callarg("Collection.WriteCas", 2) == *cbret(1)
 //@   ensures [C03:Update.success-is-writecas] err == nil && casOut != 0 ==> count("call:Collection.WriteCas") >= 1 && callret("Collection.WriteCas", 1) == nil && casOut == callret("Collection.WriteCas", 0)
 //@   ensures [C20:Update.unlocked] any: nolocks()
 //@
